@@ -34,6 +34,7 @@ K_STRANDED = "handle:adf-close-error-strands-cgio-slot"   # close of a live hand
 K_H5LINK = "fd:hdf5-linked-file-left-open"             # ids of nodes inside a linked-to HDF5 file survive ADFH_Database_Close
 K_OPENFAIL = "fd:cg_open-fails-after-cgio-open"        # cg_open returns CG_ERROR and keeps the cgio file and the table entry
 K_ADFCYCLE_LEAK = "fd:adf-link-cycle-keeps-files-open"  # (repaired close only) reference-count cycle
+K_H5TWICE = "fd:hdf5-same-file-opened-twice"           # ADFH get_file_id picks the other handle's file id: the second close fails (95)
 
 
 # ----------------------------------------------------------------------------------------------- running harnesses
@@ -185,6 +186,19 @@ def io_case(exe, world, ops, backend, work, tag, variant=None, cycles=1):
     return {"impl": il, "outcome": oc, "report": rep, "model": ml, "world": world, "ops": ops, "backend": backend}
 
 
+def cyc_in_world(world):
+    """does the link graph of a 'world' line contain a cycle between files (self links included)?"""
+    t = world.split()
+    edges = [tuple(map(int, e.split(">"))) for e in t[2].split(",")] if len(t) > 2 and t[2] != "-" else []
+    nodes = sorted({x for e in edges for x in e})
+    reach = {n: {b for a, b in edges if a == n} for n in nodes}
+    for _ in nodes:
+        for n in nodes:
+            for m in list(reach[n]):
+                reach[n] |= reach.get(m, set())
+    return any(n in reach[n] for n in nodes)
+
+
 def io_oracle(r):
     """model-free verdict on one cgio-level run -> list of (key or None, description)"""
     bad = []
@@ -194,13 +208,20 @@ def io_oracle(r):
         bad.append((key, {"problem": "crash", "outcome": r["outcome"], "after_line": len(il), "report": r["report"][-600:]}))
         return bad
     prev = None
+    close95 = r["backend"] == "hdf5" and any(l.startswith("close 95") for l in il)
     for l in il:
         if l.startswith("cycle "):
             t = l.split()
             fds, h5 = int(t[t.index("fds") + 1]), int(t[t.index("h5") + 1])
             if fds != 0 or h5 != 0:
                 m = re.search(r"open\[(.*)\]", l)
-                bad.append((K_H5LINK if r["backend"] == "hdf5" else None,
+                key = None
+                if r["backend"] == "hdf5":
+                    traversed = any(o.split()[0] in ("walk", "node") for o in r["ops"]) and ">" in r["world"]
+                    key = K_H5TWICE if close95 else (K_H5LINK if traversed else None)
+                elif r["backend"] == "adf" and cyc_in_world(r["world"]):
+                    key = K_ADFCYCLE_LEAK
+                bad.append((key,
                             {"problem": "descriptors or HDF5 ids left after every handle was closed", "fds": fds, "h5": h5,
                              "still_open": m.group(1) if m else "", "line": l}))
                 break
@@ -219,7 +240,7 @@ def io_oracle(r):
         io = prev.get("io", "").split()
         if len(io) >= 3 and (io[1] != "0" or io[2] != "0"):
             closes9 = [l for l in il if l.startswith("close 9")]
-            bad.append((K_STRANDED if (r["backend"] == "adf" and closes9) else None,
+            bad.append((K_STRANDED if (r["backend"] == "adf" and closes9) else (K_H5TWICE if close95 else None),
                         {"problem": "cgio handle table not released after every handle was closed", "io": prev["io"],
                          "close_errors": [x.split(" | ")[0] for x in il if x.startswith("close ") and not x.startswith("close 0")
                                           and not x.startswith("close -")][:4]}))
@@ -350,32 +371,54 @@ def mll_oracle(r):
     if len(il) != len(r["script"]):
         raise vlib.Infra("c17_mll: %d answers for %d script lines: %s" % (len(il), len(r["script"]), il[-2:]))
     prev = None
-    late_files, seen = set(), set()
-    has_links = any(o.startswith("link ") for o in r["script"])
+    late_files, twice_files, stranded_files, seen = set(), set(), set(), set()
+    link_targets = set("M%s.cgns" % o.split()[5] for o in r["script"] if o.startswith("link "))
+    hfile = {}
     for op, l in zip(r["script"], il):
         if l.startswith("prepfail") or l.startswith("badline"):
             raise vlib.Infra("c17_mll: %s" % l)
         if l.startswith("cycle "):
             t = l.split()
             fds, h5, user = int(t[t.index("fds") + 1]), int(t[t.index("h5") + 1]), int(t[t.index("user") + 1])
-            if user == 0 and (fds != 0 or h5 != 0) and "left" not in seen:
+            if (fds != 0 or h5 != 0) and "left" not in seen:
                 seen.add("left")
                 m = re.search(r"open\[(.*)\]", l)
                 names = set(x.replace(" (deleted)", "") for x in (m.group(1).split(",") if m and m.group(1) else []))
                 desc = {"problem": "descriptors or HDF5 ids left after every file was closed", "fds": fds, "h5": h5,
                         "still_open": sorted(names), "cycle": t[1]}
-                rest = names - late_files
-                if names & late_files:
-                    bad.append((K_OPENFAIL, dict(desc, cause="files whose cg_open failed after cgio_open_file")))
-                if rest or not names:
-                    data = all(re.match(r"M[1-9]\.cgns$", x) for x in rest)
-                    bad.append((K_H5LINK if (sc["backend"] == "hdf5" and has_links and data and rest) else
-                                (K_OPENFAIL if (not names and late_files) else None), desc))
+                causes = set()
+                rest = set(names)
+                if late_files:                       # seen: a cg_open that failed behind cgio_open_file
+                    causes.add(K_OPENFAIL); rest -= late_files
+                    if rest <= link_targets:         # files the stranded file had opened through its links
+                        rest = set()
+                if twice_files:                      # seen: a cg_close failing with ADFH_ERR_FILE_INDEX
+                    causes.add(K_H5TWICE); rest -= twice_files
+                if stranded_files:                   # seen: a cg_close failing with ADF_FILE_NOT_OPENED
+                    causes.add(K_STRANDED); rest -= stranded_files
+                    if rest <= link_targets:
+                        rest = set()
+                if rest and sc["backend"] == "hdf5" and rest <= link_targets:
+                    causes.add(K_H5LINK); rest = set()
+                if rest or not causes:
+                    bad.append((None, dict(desc, unexplained=sorted(rest))))
+                for c in sorted(causes):
+                    bad.append((c, desc))
             prev = None
             continue
         d = fields(l)
         st = d["res"].split()
         failed = len(st) > 1 and st[1] != "0"
+        if op.startswith("open ") and not failed:
+            hfile[op.split()[1]] = "M%s.cgns" % op.split()[2]
+        if op.startswith("close ") and failed and op.split()[1] in hfile and "| err " in l:
+            msg = l.split("| err ")[1]
+            if "file index from node ID" in msg:
+                twice_files.add(hfile[op.split()[1]])
+            elif "ADF 9" in msg or "ADF file not opened" in msg:
+                stranded_files.add(hfile[op.split()[1]])
+        if op.startswith("close ") and not failed:
+            hfile.pop(op.split()[1], None)
         if prev is not None and failed and op.split()[0] not in ("close", "prep", "ftype"):
             if d["fds"] != prev["fds"] or (op.startswith("open") and d["h5"] != prev["h5"]):
                 key = None
